@@ -1,10 +1,10 @@
 CONSTANTS
   MaxT = 6
-  MaxP = 3
+  MaxP = 2
   Depth = 6
   SlabCaps = {8, 24, 100, 102400}
   Fills <- MCFills
-  ArgSpace <- MCArgSpace
+  ArgSpace <- NoArgs
 INIT HInit
 NEXT HNext
 INVARIANT HEmit
